@@ -263,6 +263,7 @@ void Value::do_not_op() {
 
 void Value::do_prefix_compact_size() {
     data_value();
+    type = T_DATA; // (the result is data whatever the argument was: a string or an opcode would be shown / pushed from its own field, without the prefix)
     std::vector<uint8_t> prefix;
     size_t data_len = data.size();
     #define DLW(sz) \
